@@ -113,7 +113,7 @@ func (l *Loader) loadWithContent(path, content string, visited map[string]bool) 
 	var errors []LoadError
 	limits := l.getLimits()
 
-	if len(visited) >= limits.MaxIncludeDepth {
+	if includeDepth(visited) >= limits.MaxIncludeDepth {
 		return nil, []LoadError{{
 			Kind:    ErrorCycleDetected,
 			Path:    path,
@@ -145,7 +145,10 @@ func (l *Loader) resolveIncludes(path string, journal *ast.Journal, visited map[
 	var errors []LoadError
 
 	result := NewResolvedJournal(journal)
+	// true while the file's includes are being followed (the file is on the inclusion path),
+	// false once it is done: reaching it again is then neither a cycle nor a second load.
 	visited[path] = true
+	defer func() { visited[path] = false }()
 
 	for _, inc := range journal.Includes {
 		if IsGlobPattern(inc.Path) {
@@ -194,7 +197,11 @@ func (l *Loader) loadSingleInclude(
 	var errors []LoadError
 	limits := l.getLimits()
 
-	if visited[includePath] {
+	if onPath, seen := visited[includePath]; seen {
+		if !onPath {
+			// already loaded through another include: it is part of the result once
+			return nil
+		}
 		errors = append(errors, LoadError{
 			Kind:    ErrorCycleDetected,
 			Path:    includePath,
@@ -204,19 +211,21 @@ func (l *Loader) loadSingleInclude(
 		return errors
 	}
 
+	if includeDepth(visited) >= limits.MaxIncludeDepth {
+		return append(errors, LoadError{
+			Kind:    ErrorCycleDetected,
+			Path:    includePath,
+			Message: fmt.Sprintf("include depth limit exceeded (%d)", limits.MaxIncludeDepth),
+			Range:   incRange,
+		})
+	}
+
 	l.mu.RLock()
 	cached, ok := l.cache[includePath]
 	l.mu.RUnlock()
 	if ok {
 		// The cache saves reading and parsing the file; its own includes are still followed
 		// (and the file is marked visited), exactly as for a file read from disk.
-		if len(visited) >= limits.MaxIncludeDepth {
-			return append(errors, LoadError{
-				Kind:    ErrorCycleDetected,
-				Path:    includePath,
-				Message: fmt.Sprintf("include depth limit exceeded (%d)", limits.MaxIncludeDepth),
-			})
-		}
 		subResult, subErrors := l.resolveIncludes(includePath, cached, visited)
 		errors = append(errors, subErrors...)
 		result.Files[includePath] = cached
@@ -272,6 +281,17 @@ func (l *Loader) loadSingleInclude(
 	}
 
 	return errors
+}
+
+// includeDepth is the number of files on the current inclusion path.
+func includeDepth(visited map[string]bool) int {
+	depth := 0
+	for _, onPath := range visited {
+		if onPath {
+			depth++
+		}
+	}
+	return depth
 }
 
 func (l *Loader) expandGlob(basePath, pattern string) ([]string, error) {
